@@ -346,6 +346,11 @@ def length(a):
         if (lo == NONE or _nonneg_const(lo)) and (hi == NONE or _neg_const(hi)):
             n = length(a[1])
             return lin(0, [(n, 1), (lo if lo != NONE else ('const', 0), -1), (hi if hi != NONE else ('const', 0), 1)])
+        if hi[0] == 'gamma':
+            sa_, sb_ = ('slice', a[1], lo, hi[2], NONE), ('slice', a[1], lo, hi[3], NONE)
+            la, lb = length(sa_), length(sb_)
+            if la != ('len', sa_) and lb != ('len', sb_):
+                return gamma(hi[1], la, lb)
         if (lo == NONE or _nonneg_const(lo)) and hi[0] != 'const':
             # X[lo:H] with H known to be within the array (len(X) - H is a non-negative constant): H - lo elements
             d = lin(0, [(length(a[1]), 1), (hi, -1)])
